@@ -38,7 +38,7 @@ def normalize(v):
 
 
 def _binary_op(op, lhs, rhs):
-    if isinstance(rhs, (int, float, np.ndarray, Quantity)):
+    if isinstance(rhs, (int, float, np.generic, np.ndarray, Quantity)):
         rhs = Array(values=rhs)
     if isinstance(rhs, Array):
         rhs = lhs.__class__(**{c: rhs for c in lhs._xyz.keys()})
